@@ -1439,7 +1439,13 @@ def gen_case(rng: Rng, max_ops: int = 14) -> dict:
                     ops.append(["wburst", "wr%d" % rng.below(nr), rng.choice([0, 100, 1000]), rng.choice([1, 2, 3])])
                 ops.append(["wflap", rng.choice([list(range(nr)), list(range(nr)), [rng.below(nr)], []])])
             elif q < 6:
-                ops.append([rng.choice(["wleave", "wleave", "wjoin"]), "wr%d" % rng.below(nr)])
+                j = rng.below(nr)
+                if rng.chance(1, 3):
+                    # a disabled access point put back into the frequency's list by hand: in the list, but must stay deaf
+                    ops.append(["nic", "wr%d:1" % j, "disable"])
+                    ops.append(["wjoin", "wr%d" % j])
+                else:
+                    ops.append([rng.choice(["wleave", "wleave", "wjoin"]), "wr%d" % j])
             elif q < 7:
                 ops.append(["wclear"])
             else:
